@@ -3,7 +3,7 @@
 # Each seed is applied to a scratch copy of /repo's source tree (never to
 # /repo); all checks share one engine per seed; seeds run 12 at a time.
 cd /verif
-SEEDS=${@:-$(ls seeded)}
+SEEDS=${@:-$(ls -d seeded/*/ | xargs -n1 basename)}
 one() {
   s=$1
   D=$(mktemp -d /tmp/seedrun.XXXXXX)
